@@ -385,4 +385,183 @@ example :
   intro r
   exact ⟨rfl, rfl⟩
 
+/-! ## registration histories: a listing shows what is registered now -/
+
+open Mcp.Content.Registry in
+private theorem find_register {α} (r : Reg α) (n : Text) (d : α) (k : Text) :
+    find (register r n d) k = if k = n then some d else find r k := by
+  induction r with
+  | nil =>
+    by_cases h : k = n
+    · subst h; simp [register, find]
+    · have : ¬ n = k := fun e => h e.symm
+      simp [register, find, h, this]
+  | cons p rest ih =>
+    obtain ⟨a, v⟩ := p
+    by_cases ha : a = n
+    · subst ha
+      by_cases hk : a = k
+      · subst hk; simp [register, find]
+      · have : ¬ k = a := fun h => hk h.symm
+        simp [register, find, hk, this]
+    · by_cases hk : a = k
+      · subst hk; simp [register, find, ha]
+      · simp [register, find, ha, hk, ih]
+
+open Mcp.Content.Registry in
+private theorem find_append_single {α} (r : Reg α) (n : Text) (d : α) (k : Text) :
+    find (r ++ [(n, d)]) k = match find r k with | some v => some v | none => if n = k then some d else none := by
+  induction r with
+  | nil => simp [find]
+  | cons p rest ih =>
+    obtain ⟨a, v⟩ := p
+    by_cases hk : a = k
+    · simp [find, hk]
+    · simp [find, hk, ih]
+
+open Mcp.Content.Registry in
+private theorem find_unregister {α} (r : Reg α) (ns : List Text) (k : Text) :
+    find (unregister r ns) k = if k ∈ ns then none else find r k := by
+  induction r with
+  | nil => simp [unregister, find]
+  | cons p rest ih =>
+    obtain ⟨a, v⟩ := p
+    have ih' : find (List.filter (fun p => !ns.contains p.1) rest) k = if k ∈ ns then none else find rest k := ih
+    by_cases ha : a ∈ ns
+    · have h1 : (!ns.contains a) = false := by simp [ha]
+      have h2 : unregister ((a, v) :: rest) ns = List.filter (fun p => !ns.contains p.1) rest := by
+        simp only [unregister]; exact List.filter_cons_of_neg (by simp [ha])
+      rw [h2, ih']
+      by_cases hk : a = k
+      · subst hk; simp [ha]
+      · simp [find, hk]
+    · have h2 : unregister ((a, v) :: rest) ns = (a, v) :: List.filter (fun p => !ns.contains p.1) rest := by
+        simp only [unregister]; exact List.filter_cons_of_pos (by simp [ha])
+      rw [h2]
+      by_cases hk : a = k
+      · subst hk; simp [find, ha]
+      · simp only [find, hk, if_false]; exact ih'
+
+open Mcp.Content.Registry in
+private theorem find_step {α} (kf : Bool) (r : Reg α) (f : Text → Option α) (hf : ∀ k, find r k = f k) (s : Step α) :
+    ∀ k, find (step kf r s) k = specStep kf f s k := by
+  intro k
+  cases s with
+  | reg n d =>
+    cases kf with
+    | false => simp [step, specStep, find_register, hf]
+    | true =>
+      simp only [step, specStep, registerKeepFirst, if_true, Bool.true_and]
+      by_cases hn : (find r n).isSome = true
+      · have hn' : (f n).isSome = true := by rw [← hf n]; exact hn
+        rw [if_pos hn]
+        by_cases hk : k = n
+        · subst hk; simp [hn', hf]
+        · simp [hk, hf]
+      · have hnone : find r n = none := by cases h : find r n <;> simp_all
+        have hn' : (f n).isSome = false := by rw [← hf n, hnone]; rfl
+        rw [if_neg hn, find_append_single]
+        by_cases hk : k = n
+        · subst hk; simp [hnone, hn']
+        · have : ¬ n = k := fun h => hk h.symm
+          cases hfk : find r k <;> simp [hk, this, ← hf k, hfk]
+  | unreg ns => simp [step, specStep, find_unregister, hf]
+
+open Mcp.Content.Registry in
+private theorem find_foldl {α} (kf : Bool) (h : List (Step α)) (r : Reg α) (f : Text → Option α) (hf : ∀ k, find r k = f k) :
+    ∀ k, find (h.foldl (step kf) r) k = h.foldl (specStep kf) f k := by
+  induction h generalizing r f with
+  | nil => simpa using hf
+  | cons s rest ih => exact ih _ _ (find_step kf r f hf s)
+
+/-- **after ANY history of registrations, re-registrations and unregistrations the registry holds, under every key, exactly
+    what is currently registered there** - the last registered descriptor and handler (tools, prompts, resources:
+    `keepFirst = false`), the first one for resource templates (`keepFirst = true`: the code refuses a second registration),
+    nothing for a key that was unregistered or never registered. For all histories, all keys, any descriptor type. -/
+theorem C02_registry_holds_current {α} (keepFirst : Bool) (h : List (Registry.Step α)) (key : Text) :
+    Registry.find (Registry.run keepFirst h) key = Registry.current keepFirst h key :=
+  find_foldl keepFirst h [] (fun _ => none) (fun _ => rfl) key
+
+open Mcp.Content.Registry in
+private theorem names_register {α} (r : Reg α) (n : Text) (d : α) :
+    names (register r n d) = if n ∈ names r then names r else names r ++ [n] := by
+  induction r with
+  | nil => simp [register, names]
+  | cons p rest ih =>
+    obtain ⟨a, v⟩ := p
+    simp only [names] at ih
+    by_cases ha : a = n
+    · subst ha; simp [register, names]
+    · have : ¬ n = a := fun h => ha h.symm
+      by_cases hm : n ∈ rest.map (·.1)
+      · simp [register, names, ha, this, ih, hm]
+      · simp [register, names, ha, this, ih, hm]
+
+open Mcp.Content.Registry in
+private theorem find_isSome_iff_mem {α} (r : Reg α) (k : Text) : (find r k).isSome = true ↔ k ∈ names r := by
+  induction r with
+  | nil => simp [find, names]
+  | cons p rest ih =>
+    obtain ⟨a, v⟩ := p
+    simp only [names] at ih
+    by_cases hk : a = k
+    · simp [find, names, hk]
+    · have : ¬ k = a := fun h => hk h.symm
+      simp [find, names, hk, this, ih]
+
+/-- the order of a listing that follows the order slice (resources/list): a re-registered key KEEPS its position, a new key
+    goes to the end (both registration policies) -/
+theorem C02_registry_order {α} (keepFirst : Bool) (r : Registry.Reg α) (n : Text) (d : α) :
+    Registry.names (Registry.step keepFirst r (.reg n d)) = if n ∈ Registry.names r then Registry.names r else Registry.names r ++ [n] := by
+  cases keepFirst with
+  | false => simpa [Registry.step] using names_register r n d
+  | true =>
+    simp only [Registry.step, Registry.registerKeepFirst, if_true]
+    by_cases hm : n ∈ Registry.names r
+    · simp [hm, (find_isSome_iff_mem r n).2 hm]
+    · have : ¬ (Registry.find r n).isSome = true := fun h => hm ((find_isSome_iff_mem r n).1 h)
+      rw [if_neg this, if_neg hm]
+      simp [Registry.names]
+
+open Mcp.Content.Registry in
+private theorem nodup_step {α} (kf : Bool) (r : Reg α) (hr : (names r).Nodup) (s : Step α) : (names (step kf r s)).Nodup := by
+  cases s with
+  | reg n d =>
+    rw [C02_registry_order]
+    by_cases hm : n ∈ names r
+    · simpa [hm] using hr
+    · simp only [hm, if_false]
+      exact List.nodup_append.2 ⟨hr, by simp, by intro a ha b hb; simp at hb; subst hb; intro h; exact hm (h ▸ ha)⟩
+  | unreg ns =>
+    simp only [step, unregister, names]
+    exact (List.Nodup.sublist (List.Sublist.map _ List.filter_sublist) hr)
+
+/-- every currently registered key is listed exactly once (no key twice, whatever the history) -/
+theorem C02_registry_lists_each_once {α} (keepFirst : Bool) (h : List (Registry.Step α)) :
+    (Registry.names (Registry.run keepFirst h)).Nodup := by
+  have : ∀ (r : Registry.Reg α), (Registry.names r).Nodup → (Registry.names (h.foldl (Registry.step keepFirst) r)).Nodup := by
+    induction h with
+    | nil => intro r hr; simpa using hr
+    | cons s rest ih => intro r hr; exact ih _ (nodup_step keepFirst r hr s)
+  exact this [] (by simp [Registry.names])
+
+/-- a key is listed iff something is currently registered under it -/
+theorem C02_registry_listed_iff_registered {α} (keepFirst : Bool) (h : List (Registry.Step α)) (key : Text) :
+    key ∈ Registry.names (Registry.run keepFirst h) ↔ (Registry.current keepFirst h key).isSome = true := by
+  rw [← C02_registry_holds_current, find_isSome_iff_mem]
+
+/-- the foil: a listing served from a snapshot that is refreshed only when the SET of keys changes shows the OLD descriptor
+    after register - list - re-register (what the listing must show is `v2`) -/
+theorem C02_registry_stale_snapshot_counterexample :
+    Registry.find (Registry.run false [.reg t!"a" t!"v1", .reg t!"a" t!"v2"]) t!"a" = some t!"v2"
+      ∧ Registry.find (Registry.run false [.reg t!"a" t!"v1"]) t!"a" ≠ some t!"v2" := by
+  decide
+
+/-- non-vacuity: register, re-register, a second key, unregister, register again (moves to the end), a refused template -/
+example :
+    Registry.run false [.reg t!"a" 1, .reg t!"b" 1, .reg t!"a" 2, .unreg [t!"a", t!"x"], .reg t!"c" 1, .reg t!"a" 3, .reg t!"b" 2]
+        = [(t!"b", 2), (t!"c", 1), (t!"a", 3)]
+      ∧ Registry.run true [.reg t!"t" 1, .reg t!"u" 1, .reg t!"t" 2] = [(t!"t", 1), (t!"u", 1)] := by
+  decide
+
 end Mcp.Props.C02
